@@ -416,6 +416,12 @@ def check_lifecycle(prop, tier, seed, replay=None):
         "virtual clock of the Go runtime (faketime); thresholds are never hit at the exact instant of equality unless they are 0",
     ]
     evaluate(prop, results, rep, hbin, directed, counter, shrink_budget=(30 if tier == "quick" else 120))
+    if prop == "C07" and not replay:
+        from . import conc07
+        try:
+            conc07.destroy_race(rep, tier, seed, counter)
+        except env.BuildError:
+            pass
     if prop == "C04" and not replay:
         from . import mxlib
         try:
